@@ -86,7 +86,7 @@ def build_driver(sdir, name, objs, sanitize=True, opt="-O1", extra=(), srcs=None
     """Compile harness/<name>.c (plus srcs) against the scratch copy and link with the library objects."""
     exe = os.path.join(sdir, name)
     flags = cflags(sanitize, opt, extra)
-    cs = [os.path.join(HARNESS, name + ".c")] + [os.path.join(HARNESS, s) for s in (srcs or [])]
+    cs = [os.path.join(HARNESS, name + ".c"), os.path.join(HARNESS, "trace.c")] + [os.path.join(HARNESS, s) for s in (srcs or [])]
     use = [o for o in objs if not any(os.path.basename(o).startswith(e) for e in exclude)]
     cmd = ["mpicc"] + flags + ["-I" + os.path.join(sdir, "src"), "-I" + HARNESS] + cs + use + \
           ["-o", exe, "-lm", "-lpthread"]
@@ -149,9 +149,11 @@ def coq_deps(vfile):
             continue
         seen.append(f)
         txt = open(os.path.join(COQ, f)).read()
-        for m in re.finditer(r"From RS Require\s+(?:Import\s+|Export\s+)?(.*?)\.(?:\s|$)", txt, re.S):
-            for mod in m.group(1).split():
-                cand = mod.replace(".", "/") + ".v"
+        for m in re.finditer(r"From RS((?:\.[A-Za-z0-9_]+)*) Require\s+(?:Import\s+|Export\s+)?(.*?)\.(?:\s|$)", txt, re.S):
+            prefix = m.group(1).lstrip(".")
+            for mod in m.group(2).split():
+                full = (prefix + "." if prefix else "") + mod
+                cand = full.replace(".", "/") + ".v"
                 if os.path.exists(os.path.join(COQ, cand)):
                     todo.append(cand)
     return seen
